@@ -102,7 +102,7 @@ Definition tag_is (t name : str) : bool := str_eqb t name.
 
 (* tags: "calc" op x y | "cast" sign bit v | "trunc" v size sign | "minmax" bits sign
          | "eval" platform expr | "conv" platform exprA exprB (value of A converted to usual(A,B)) *)
-Definition run (fields : list str) : list str :=
+Definition run_leaf (fields : list str) : list str :=
   match fields with
   | tag :: args =>
       if tag_is tag [99;97;108;99]%N then
